@@ -18,10 +18,12 @@ package main
 import (
 	"bytes"
 	"context"
+	"errors"
 	"fmt"
 	"os"
 	"reflect"
 	"runtime"
+	"sort"
 	"strconv"
 	"strings"
 	"sync"
@@ -32,6 +34,7 @@ import (
 	"github.com/plgd-dev/go-coap/v3/message/codes"
 	"github.com/plgd-dev/go-coap/v3/message/pool"
 	"github.com/plgd-dev/go-coap/v3/net/blockwise"
+	"github.com/plgd-dev/go-coap/v3/pkg/cache"
 	"github.com/plgd-dev/go-coap/v3/net/responsewriter"
 	"github.com/plgd-dev/go-coap/v3/options/config"
 	"github.com/plgd-dev/go-coap/v3/udp/client"
@@ -75,6 +78,8 @@ type c13Link struct {
 	silent   bool // drop everything
 	dup      bool // deliver everything twice
 	passLeft int  // >= 0: pass that many more datagrams, then drop; -1: no limit
+	fail     bool // transport down: WriteMessage returns an error, nothing leaves
+	failed   int  // writes refused while fail was set
 	lastDrop []byte
 	dst      *c13Side
 	stop     bool
@@ -195,8 +200,28 @@ func (s *c13Sess) WriteMessage(req *pool.Message) error {
 	}
 	cp := make([]byte, len(data))
 	copy(cp, data)
+	if s.link.refuse() {
+		return errors.New("sendto: network is unreachable")
+	}
 	s.link.send(cp)
 	return nil
+}
+
+// refuse reports (and counts) a write attempted while the transport is down.
+func (l *c13Link) refuse() bool {
+	l.mu.Lock()
+	defer l.mu.Unlock()
+	if l.fail {
+		l.failed++
+		l.cond.Broadcast()
+	}
+	return l.fail
+}
+
+func (l *c13Link) setFail(on bool) {
+	l.mu.Lock()
+	l.fail = on
+	l.mu.Unlock()
 }
 
 // ---------------------------------------------------------------- sides
@@ -426,6 +451,8 @@ type c13Run struct {
 	dbg    bool
 	liveB  int
 	d0, e0 int
+	// the closing ticks run with the transport down (writes fail) instead of a silent network
+	downAtClose bool
 }
 
 type c13Ping struct {
@@ -615,6 +642,11 @@ func c13Sizes(z [c13NSizes]int) string {
 
 // endStep records the datagrams dispatched during the step, reads the tables and closes the step.
 func (p *c13Run) endStep(tag string, idle bool, closing bool) {
+	p.endStepK(tag, idle, closing, false)
+}
+
+// swept: every call has returned, every deadline has passed and ONE housekeeping tick has run (kind 3)
+func (p *c13Run) endStepK(tag string, idle bool, closing bool, swept bool) {
 	p.settle()
 	for _, x := range p.a.takeIn() {
 		p.ev(true, fmt.Sprintf("EIn %d %d %d false", x.typ, x.code, x.mid))
@@ -636,6 +668,9 @@ func (p *c13Run) endStep(tag string, idle bool, closing bool) {
 	}
 	if closing {
 		kind = 2
+	}
+	if swept {
+		kind = 3
 	}
 	p.steps = append(p.steps, fmt.Sprintf("St %d [%s] %s %s %d", kind, strings.Join(p.evs, "; "), c13Sizes(sa), c13Sizes(sb), live))
 	if p.dbg {
@@ -1179,13 +1214,18 @@ func (p *c13Run) opOneway(dup bool) {
 }
 
 // tick: network outage, virtual ageing by ms on both sides, one housekeeping tick on both sides
-func (p *c13Run) opTick(ms int64, far bool) {
+//
+// down: instead of losing the datagrams silently the transport refuses them (session.WriteMessage
+// returns an error for every copy the tick retransmits)
+func (p *c13Run) opTick(ms int64, far bool, down bool) {
 	p.settle()
 	p.ab.mu.Lock()
 	p.ab.silent = true
+	p.ab.fail = down
 	p.ab.mu.Unlock()
 	p.ba.mu.Lock()
 	p.ba.silent = true
+	p.ba.fail = down
 	p.ba.mu.Unlock()
 	if ms > 0 {
 		d := time.Duration(ms) * time.Millisecond
@@ -1202,8 +1242,13 @@ func (p *c13Run) opTick(ms int64, far bool) {
 	}
 	p.a.cc.CheckExpirations(now)
 	p.b.cc.CheckExpirations(now)
-	p.ev(true, "TickAll")
-	p.ev(false, "TickAll")
+	if down {
+		p.ev(true, "TickAllW true")
+		p.ev(false, "TickAllW true")
+	} else {
+		p.ev(true, "TickAll")
+		p.ev(false, "TickAll")
+	}
 	if far {
 		p.ev(true, "BwExpire")
 		p.ev(false, "BwExpire")
@@ -1223,9 +1268,11 @@ func (p *c13Run) opTick(ms int64, far bool) {
 	p.settle()
 	p.ab.mu.Lock()
 	p.ab.silent = false
+	p.ab.fail = false
 	p.ab.mu.Unlock()
 	p.ba.mu.Lock()
 	p.ba.silent = false
+	p.ba.fail = false
 	p.ba.mu.Unlock()
 }
 
@@ -1237,8 +1284,25 @@ func (p *c13Run) setDup(on bool) {
 	}
 }
 
-// apply executes one operation of the descriptor.
+// apply executes one operation of the descriptor; "n*op" runs op n times within one step (many
+// exchanges between two reads of the tables, e.g. more cached replies than one tick used to sweep).
 func (p *c13Run) apply(op string) {
+	if i := strings.Index(op, "*"); i > 0 {
+		n, _ := strconv.Atoi(op[:i])
+		inner := op[i+1:]
+		switch strings.TrimPrefix(strings.Split(inner, ":")[0], "D") {
+		case "get", "nf", "oneway", "up", "getbig", "upab", "downab", "getfail":
+			for j := 0; j < n && j < 400 && !p.hung; j++ {
+				p.applyOne(inner)
+			}
+		}
+	} else {
+		p.applyOne(op)
+	}
+	p.endStep(op, p.idle(), false)
+}
+
+func (p *c13Run) applyOne(op string) {
 	f := strings.Split(op, ":")
 	arg := func(i int) int {
 		if i < len(f) {
@@ -1312,13 +1376,38 @@ func (p *c13Run) apply(op string) {
 	case "oneway":
 		p.opOneway(dup)
 	case "tick":
-		p.opTick(int64(arg(1))*1000, false)
+		p.opTick(int64(arg(1))*1000, false, false)
+	case "tickf":
+		p.opTick(int64(arg(1))*1000, false, true)
+	case "linkdown":
+		p.downAtClose = true
+	case "getfail":
+		// the transport refuses the request itself: Do returns the write error
+		p.ab.setFail(true)
+		p.opDo(kGet, 0, 0, true, nil)
+		p.ab.setFail(false)
+	case "pingfail":
+		p.opPingFail(arg(1))
 	}
 	if dup {
 		p.settle()
 		p.setDup(false)
 	}
-	p.endStep(op, p.idle(), false)
+}
+
+// AsyncPing whose own write is refused: it returns the error and keeps nothing
+func (p *c13Run) opPingFail(id int) {
+	p.ab.setFail(true)
+	cancel, err := p.a.cc.AsyncPing(func() {})
+	p.ab.setFail(false)
+	if err == nil {
+		p.flags = append(p.flags, "AsyncPing: no error although the write was refused")
+		if cancel != nil {
+			cancel()
+		}
+	}
+	p.ev(true, fmt.Sprintf("PingStart %d", 100000+id))
+	p.ev(true, fmt.Sprintf("PingEnd %d", 100000+id))
 }
 
 // finish: every exchange still open is ended, then everything is aged past its deadline and ticked.
@@ -1334,7 +1423,11 @@ func (p *c13Run) finish() {
 		if i == 0 {
 			ms = c13FarMs
 		}
-		p.opTick(ms, true)
+		p.opTick(ms, true, p.downAtClose)
+		if i == 0 {
+			// every deadline has passed and ONE tick has run: caches and block-wise buffers must be empty now
+			p.endStepK("close-1", true, false, true)
+		}
 	}
 	for _, st := range p.pingSt {
 		st.gone = true
@@ -1389,7 +1482,7 @@ func genC13History(rng *Rng, n int) (int, []string) {
 	var openH []int
 	var openP []int
 	for len(ops) < n {
-		switch rng.Intn(30) {
+		switch rng.Intn(32) {
 		case 0, 1, 2:
 			ops = append(ops, rng.pickS([]string{"get", "get", "Dget", "nf"}))
 		case 3, 4:
@@ -1450,13 +1543,152 @@ func genC13History(rng *Rng, n int) (int, []string) {
 		case 27:
 			ops = append(ops, fmt.Sprintf("downab:%d", rng.Intn(4)))
 		case 28, 29:
-			ops = append(ops, rng.pickS([]string{"tick:100", "tick:100", "tick:300"}))
+			ops = append(ops, rng.pickS([]string{"tick:100", "tick:100", "tick:300", "tickf:100", "tickf:300"}))
+		case 30:
+			np++
+			ops = append(ops, rng.pickS([]string{"getfail", "getfail", fmt.Sprintf("pingfail:%d", np)}))
+		case 31:
+			ops = append(ops, rng.pickS([]string{"33*get", "36*oneway", "34*upab:1", "33*downab:1", "3*getbig", "35*nf"}))
 		}
+	}
+	if rng.Chance(15) {
+		ops = append(ops, "linkdown")
 	}
 	return le, ops
 }
 
 func (r *Rng) pickS(xs []string) string { return xs[r.Intn(len(xs))] }
+
+// ---------------------------------------------------------------- the expiry cache on its own
+//
+// pkg/cache.Cache is the table behind the response cache and both block-wise caches.  One cache is
+// filled with n entries -- x of them with a deadline before `now` (one exactly 1 ms before), z
+// without deadline, the others at or after `now` (one exactly at `now`: now.After(deadline) is
+// false) -- then ONE CheckExpirations(now) runs; the keys left and the onExpire calls are recorded.
+// No real time is involved: the deadlines and `now` are fixed instants.
+
+const c13SweepNow = 1000000 // ms after the base instant
+
+func c13SweepDesc(n, x, z int, salt uint64) string {
+	return fmt.Sprintf("sweep n=%d x=%d z=%d s=%d", n, x, z, salt)
+}
+
+func c13SweepParse(d string) (n, x, z int, salt uint64) {
+	for _, f := range strings.Fields(d)[1:] {
+		kv := strings.SplitN(f, "=", 2)
+		if len(kv) != 2 {
+			continue
+		}
+		v, _ := strconv.Atoi(kv[1])
+		switch kv[0] {
+		case "n":
+			n = v
+		case "x":
+			x = v
+		case "z":
+			z = v
+		case "s":
+			salt = uint64(v)
+		}
+	}
+	if n < 0 {
+		n = 0
+	}
+	if n > 2000 {
+		n = 2000
+	}
+	if x > n {
+		x = n
+	}
+	if x < 0 {
+		x = 0
+	}
+	if z > n-x {
+		z = n - x
+	}
+	if z < 0 {
+		z = 0
+	}
+	return
+}
+
+func runC13Sweep(desc string) (string, bool) {
+	n, x, z, salt := c13SweepParse(desc)
+	rng := NewRng(salt*2654435761 + uint64(n)*97 + uint64(x))
+	base := time.Unix(1800000000, 0)
+	// roles in a shuffled order of the keys 1..n
+	perm := make([]int, n)
+	for i := range perm {
+		perm[i] = i + 1
+	}
+	for i := n - 1; i > 0; i-- {
+		j := rng.Intn(i + 1)
+		perm[i], perm[j] = perm[j], perm[i]
+	}
+	until := make(map[int]int64, n) // ms after base; -1 = no deadline
+	for i, k := range perm {
+		switch {
+		case i == 0 && x > 0:
+			until[k] = c13SweepNow - 1
+		case i < x:
+			until[k] = c13SweepNow - 1 - int64(rng.Intn(900000))
+		case i < x+z:
+			until[k] = -1
+		case i == x+z:
+			until[k] = c13SweepNow
+		default:
+			until[k] = c13SweepNow + int64(rng.Pick([]int{0, 1, 1000, 500000}))
+		}
+	}
+	var mu sync.Mutex
+	var fired []int
+	bad := 0
+	var left []int
+	func() {
+		defer func() {
+			if r := recover(); r != nil {
+				bad++
+			}
+		}()
+		c := cache.NewCache[int, int]()
+		for k := 1; k <= n; k++ {
+			var t time.Time
+			if until[k] >= 0 {
+				t = base.Add(time.Duration(until[k]) * time.Millisecond)
+			}
+			c.Store(k, cache.NewElement(k, t, func(d int) {
+				mu.Lock()
+				fired = append(fired, d)
+				mu.Unlock()
+			}))
+		}
+		c.CheckExpirations(base.Add(c13SweepNow * time.Millisecond))
+		c.Range(func(k int, _ *cache.Element[int]) bool {
+			left = append(left, k)
+			return true
+		})
+	}()
+	sortInts(left)
+	sortInts(fired)
+	ents := make([]string, 0, n)
+	for k := 1; k <= n; k++ {
+		if until[k] < 0 {
+			ents = append(ents, fmt.Sprintf("(%d, None)", k))
+		} else {
+			ents = append(ents, fmt.Sprintf("(%d, Some %d)", k, until[k]))
+		}
+	}
+	zl := func(xs []int) string {
+		parts := make([]string, len(xs))
+		for i, v := range xs {
+			parts[i] = strconv.Itoa(v)
+		}
+		return "[" + strings.Join(parts, "; ") + "]"
+	}
+	return fmt.Sprintf("Sweep %d [%s] %s %s %d", c13SweepNow, strings.Join(ents, "; "), zl(left), zl(fired), bad), bad == 0
+}
+
+func sortInts(xs []int) { sort.Ints(xs) }
 
 func runC13(a runArgs) error {
 	e := NewEmitter("C13", "Conn.Run")
@@ -1468,6 +1700,10 @@ func runC13(a runArgs) error {
 		nt := false
 		hb := []string{bucket}
 		for _, o := range ops {
+			if i := strings.Index(o, "*"); i > 0 {
+				o = o[i+1:]
+				hb = append(hb, "op:burst")
+			}
 			n := strings.TrimPrefix(strings.Split(o, ":")[0], "D")
 			hb = append(hb, "op:"+n)
 			switch n {
@@ -1484,7 +1720,27 @@ func runC13(a runArgs) error {
 		}
 		e.AddW(coq, c13Desc(le, ops), nt, 1+len(ops)/4, hb...)
 	}
+	addSweep := func(n, x, z int, salt uint64) {
+		d := c13SweepDesc(n, x, z, salt)
+		coq, _ := runC13Sweep(d)
+		nn, xx, _, _ := c13SweepParse(d)
+		hb := []string{"sweep"}
+		switch {
+		case xx > 32:
+			hb = append(hb, "sweep:expired>32")
+		case xx > 0:
+			hb = append(hb, "sweep:expired<=32")
+		default:
+			hb = append(hb, "sweep:expired=0")
+		}
+		e.AddW(coq, d, xx > 0 && xx < nn || xx > 32, 1+nn/25, hb...)
+	}
 	if a.only != "" {
+		if strings.HasPrefix(a.only, "sweep ") {
+			n, x, z, salt := c13SweepParse(a.only)
+			addSweep(n, x, z, salt)
+			return e.Flush(a.out)
+		}
 		le, ops := c13Parse(a.only)
 		add(le, ops, "replay")
 		return e.Flush(a.out)
@@ -1501,11 +1757,36 @@ func runC13(a runArgs) error {
 		{"obs:ok", "obscancel:0", "notify:0:2:1"},
 		{"bad"}, {"dl"}, {"dldrop"}, {"upab:0"}, {"upab:2"}, {"downab:0"}, {"downab:2"},
 		{"get", "tick:100", "get", "tick:100", "tick:100", "get"},
+		// transport faults: the retransmissions of the ticks are refused (write error), at once or after some left
+		{"pinglost:1", "tickf:300", "tickf:300", "tickf:300"}, {"pinglost:1", "tick:300", "tickf:300", "tickf:300"},
+		{"pinglost:1", "tickf:100", "tickf:100", "tickf:100", "tickf:100", "tickf:100"}, {"pinglost:1", "linkdown"},
+		{"pinglost:1", "tickf:300", "pinglost:2", "tick:300", "tickf:300", "tickf:300"},
+		{"hdrop:1", "tickf:300", "tickf:300", "tickf:300", "cancel:1"}, {"hdrop:1", "tickf:300", "linkdown"},
+		{"getfail"}, {"pingfail:1"}, {"getfail", "get", "pingfail:1", "ping"},
+		// more entries than one tick used to handle: cached replies, reassembly and send buffers
+		{"40*get"}, {"34*upab:1"}, {"34*downab:1"}, {"20*get", "tick:300", "20*get", "tick:100", "35*Dget"},
 	}
 	for _, le := range []int{1, 0} {
 		for _, ops := range fixed {
 			add(le, ops, "fixed")
 		}
+	}
+	// the expiry cache on its own: around the sizes a bounded sweep would stop at, all / some / none expired
+	for _, n := range []int{0, 1, 7, 31, 32, 33, 34, 40, 64, 65, 100, 200} {
+		for i, x := range []int{n, n / 2, n - 1, 0, 33} {
+			if x < 0 || x > n || (i > 0 && x == n) {
+				continue
+			}
+			addSweep(n, x, rng.Intn(3), uint64(rng.Intn(1000)))
+		}
+	}
+	ns := 12
+	if a.tier == "thorough" {
+		ns = 150
+	}
+	for i := 0; i < ns; i++ {
+		n := rng.Pick([]int{5, 30, 33, 48, 70, 130, 300})
+		addSweep(n, rng.Intn(n+1), rng.Intn(4), uint64(rng.Intn(100000)))
 	}
 	n := 40
 	if a.tier == "thorough" {
